@@ -265,6 +265,20 @@ def run(ctx, build):
                   gen.Layout([1], [0], [2, 2], [1, 0])]
     shape_pairs = [(('%s_extra_%s' % (a, k), byname['%s_extra_%s' % (a, k)]), ('%s_extra_%s' % (b, k), byname['%s_extra_%s' % (b, k)]))
                    for a, b in (('PI', 'PV'), ('SI', 'SV')) for k in ('row', 'col')]
+    # valid encodings of the two descriptive attributes of the Main dataset (fixed-length byte strings as written by older tools)
+    def enc(keys, mk):
+        def fn(g):
+            for key in keys:
+                v = g['Raw_Data'].attrs[key]
+                v = v.decode() if isinstance(v, bytes) else str(v)
+                del g['Raw_Data'].attrs[key]
+                g['Raw_Data'].attrs[key] = mk(v)
+        return fn
+    encodings = [(('enc_quantity_fixed_bytes', enc(['quantity'], lambda v: np.bytes_(v))),),
+                 (('enc_units_fixed_bytes', enc(['units'], lambda v: np.bytes_(v))),),
+                 (('enc_both_fixed_bytes', enc(['quantity', 'units'], lambda v: np.bytes_(v))),),
+                 (('enc_both_numpy_str', enc(['quantity', 'units'], lambda v: np.str_(v))),)]
+    plan += [(e, lays[i % len(lays)]) for i, e in enumerate(encodings)]
     for dl in degenerate:
         plan += [((), dl)] + [(sp, dl) for sp in shape_pairs] + [((c,), dl) for c in cs if '_extra_' in c[0] or '_truncated' in c[0]]
     cases, meta = [], []
@@ -356,7 +370,7 @@ def run(ctx, build):
         for ti in range(n_trees):
             chosen = rng.sample(tree_items, min(len(tree_items), rng.randint(2, 6)))
             # every tree holds at least one (every other tree two) valid Main datasets, so that the search has something to return
-            valid_items = [it for it in tree_items if it[1] and not it[3]]
+            valid_items = [it for it in tree_items if it[1] and (not it[3] or it[3][0][0].startswith('enc_'))]
             if valid_items:
                 chosen += [valid_items[ti % len(valid_items)]] + ([valid_items[(ti * 7 + 3) % len(valid_items)]] if ti % 2 else [])
             t = f.create_group('tree%04d' % ti)
@@ -380,12 +394,21 @@ def run(ctx, build):
                 if cp is not None and is_main_spec(describe(f, cp, [])):
                     wanted.append(sub.name + '/Raw_Data')
                 any_raises |= obs == 2
+            # links: a soft link back to the tree root (a cycle for anything that follows soft links), a dangling soft link, and a
+            # valid member reachable under a second (hard-linked) name -- every valid dataset must still be reported exactly once
+            t['sub/back_to_root'] = h5py.SoftLink(t.name)
+            t['sub/nowhere'] = h5py.SoftLink('/does/not/exist')
+            if wanted and ti % 2 == 0:
+                t['alias_of_member'] = f[wanted[0]].parent
+                hist['trees_with_hard_linked_member'] = hist.get('trees_with_hard_linked_member', 0) + 1
+            addr = lambda o: h5py.h5o.get_info(o.id).addr
             hist['trees'] += 1
             hist['valid_datasets_inside_search_trees'] += len(wanted)
             try:
                 with common.quiet():
-                    got = sorted(x.name for x in get_all_main(t))
-                if got != sorted(wanted):
+                    found = get_all_main(t)
+                got = sorted(x.name for x in found)
+                if sorted(addr(x) for x in found) != sorted(addr(f[w]) for w in wanted):
                     diag = []
                     for ci, (gname, want, obs, combo, lay) in enumerate(chosen):
                         o = t[('m%d' % ci) if ci % 3 else ('deeper/m%d' % ci)].get('Raw_Data')
